@@ -53,7 +53,7 @@ PROPS = {
         "case_type": "c12_case",
         "check": "c12_check",
         "mismatch_is_violation": True,
-        "theories": ["theories/Base.v", "theories/Nonce.v", "theories/Store.v", "theories/StoreProofs.v", "gen/Facts.v"],
+        "theories": ["theories/Base.v", "theories/Nonce.v", "theories/Store.v", "theories/StoreProofs.v", "gen/Facts.v", "theories/Retry.v"],
         "check_theories": ["theories/Check12.v"],
         "level_text": "The documented Store contract is an executable Gallina model (coq/theories/Store.v); Coq theorems "
                       "state, for every reachable state and operation, the contract facts the property names "
@@ -105,7 +105,7 @@ PROPS = {
         "check": "c13_check",
         "mismatch_is_violation": True,
         "theories": ["theories/Base.v", "theories/Nonce.v", "theories/Store.v", "theories/StoreProofs.v",
-                     "theories/Durable.v", "theories/DurableProofs.v", "gen/Facts.v"],
+                     "theories/Durable.v", "theories/DurableProofs.v", "gen/Facts.v", "theories/Retry.v"],
         "check_theories": ["theories/Check12.v", "theories/Check13.v"],
         "level_text": "Coq theorems over a key-space-write model of the persistent driver: the writes each method issues, "
                       "applied in one transaction, are exactly the contract step; with one transaction per method "
